@@ -414,6 +414,70 @@ func c10Families(tier string) []explore.Family {
 			}
 		}})
 	}
+	// --- deep nesting: depth 1..40, the first failing condition at every level (or none), four shapes per level
+	// (if/else, unless/else, if/elsif/else with the elsif taken, case/when/else); exactly one path is rendered
+	const deepMax = 40
+	type deepJob struct{ d, k, shape int }
+	var deepJobs []deepJob
+	for d := 1; d <= deepMax; d++ {
+		for k := 0; k <= d; k++ {
+			for sh := 0; sh < 5; sh++ {
+				deepJobs = append(deepJobs, deepJob{d, k, sh})
+			}
+		}
+	}
+	fams = append(fams, explore.Family{Name: "nested-depth-1..40", Count: int64(len(deepJobs)), Run: func(i int64, r *explore.Rec) {
+		jb := deepJobs[i]
+		var open, close []string
+		for l := 0; l < jb.d; l++ {
+			sh := jb.shape
+			if sh == 4 {
+				sh = l % 4 // mixed
+			}
+			L := strconv.Itoa(l)
+			var o, c string
+			switch sh {
+			case 0:
+				o, c = "{% if c"+L+" %}a"+L, "z"+L+"{% else %}e"+L+"{% endif %}"
+			case 1:
+				o, c = "{% unless n"+L+" %}a"+L, "z"+L+"{% else %}e"+L+"{% endunless %}"
+			case 2:
+				o, c = "{% if false %}x{% elsif c"+L+" %}a"+L, "z"+L+"{% elsif true %}e"+L+"{% else %}y{% endif %}"
+			default:
+				o, c = "{% case s"+L+" %}{% when 'q' %}x{% when 'y' %}a"+L, "z"+L+"{% else %}e"+L+"{% endcase %}"
+			}
+			open = append(open, o)
+			close = append([]string{c}, close...)
+		}
+		// reference: level l renders a<l> inner z<l> when its condition holds, e<l> otherwise; level k is the
+		// first (and only) level whose condition does not hold (k = d: none)
+		var ref func(l int) string
+		ref = func(l int) string {
+			switch {
+			case l == jb.d:
+				return "|"
+			case l == jb.k:
+				return "e" + strconv.Itoa(l)
+			}
+			return "a" + strconv.Itoa(l) + ref(l+1) + "z" + strconv.Itoa(l)
+		}
+		want := ref(0)
+		bind := map[string]any{}
+		for l := 0; l < jb.d; l++ {
+			L := strconv.Itoa(l)
+			bind["c"+L], bind["n"+L], bind["s"+L] = l != jb.k, l == jb.k, map[bool]string{true: "y", false: "n"}[l != jb.k]
+		}
+		src := strings.Join(open, "") + "|" + strings.Join(close, "")
+		r.Eval()
+		r.Transition()
+		r.Trace()
+		o := Render(c10.eng, src, bind)
+		r.Class(fmt.Sprintf("deep/shape%d", jb.shape))
+		if o.Panic != nil || o.Err != nil || o.Out != want {
+			r.Violation("wrong-branch:nested-deep", map[string]any{"depth": jb.d, "first_false_level": jb.k, "shape": jb.shape, "template": trunc80(src)}, want, trunc80(o.String()))
+		}
+	}})
+
 	// --- nesting: conditionals inside conditionals and inside a loop whose variable is the condition
 	fams = append(fams, explore.Family{Name: "nested-2-levels", Count: int64(T * T * T), Run: func(i int64, r *explore.Rec) {
 		rx := radix{i}
